@@ -113,12 +113,24 @@ def s2(ctx, rep):
     for f in impls:
         cfg = cfg_of(f)
         # every assignment of a (trial_id, pos) result is guarded by self._is_promotable_trial(entry, ...)
+        # the places where an entry of the rung is chosen: inside the scan over rung.data, a pair built from the loop's variables
+        # (the entry or its trial id, and the position) is stored or returned
+        scans = [l for l in cfg.nodes if l.kind == "for" and "rung.data" in U(l.ast.iter)]
+        if not scans:
+            raise AnchorError(f"{f.short}: scan over rung.data not found")
+        lvars = {y.id for l in scans for y in ast.walk(l.ast.target) if isinstance(y, ast.Name)}
+        inside = {id(s) for l in scans for s in stmts_in(l.ast.body)}
         res = [n for n in cfg.nodes if n.kind == "stmt" and isinstance(n.ast, (ast.Assign, ast.Return)) and isinstance(n.ast.value, ast.Tuple)
-               and len(n.ast.value.elts) == 2 and "trial_id" in U(n.ast.value.elts[0])]
+               and len(n.ast.value.elts) == 2 and id(n.ast) in inside
+               and all(any(isinstance(y, ast.Name) and y.id in lvars for y in ast.walk(e)) for e in n.ast.value.elts)]
         if not res:
-            raise AnchorError(f"{f.short}: no place where a (trial_id, pos) result is stored or returned")
+            raise AnchorError(f"{f.short}: no place inside the scan where an (entry / trial id, position) pair is stored or returned")
         for n in res:
-            ent = U(n.ast.value.elts[0]).split(".")[0]
+            ent = sorted({y.id for e in n.ast.value.elts for y in ast.walk(e) if isinstance(y, ast.Name) and y.id in lvars
+                          and any(isinstance(p_, ast.Attribute) and p_.value is y for p_ in ast.walk(e))} or
+                         {y.id for e in n.ast.value.elts for y in ast.walk(e) if isinstance(y, ast.Name) and y.id in lvars})
+            ent = [e_ for e_ in ent if any(a[0] == "truth" and a[1].startswith("self._is_promotable_trial(" + e_) for a in ctx.facts(f).at(n.id))][:1] or ent[:1]
+            ent = ent[0]
             ok = ctx.has_fact(f, n.id, lambda a: a[0] == "truth" and a[2] is True and a[1].startswith("self._is_promotable_trial(" + ent))
             rep.put(ok, "S2", "guarded_by", f"{f.short}: an entry is chosen only if _is_promotable_trial(entry) holds", f, n.ast, "",
                     "an entry can be chosen for promotion without passing _is_promotable_trial: an already promoted trial is "
